@@ -1942,6 +1942,18 @@ class TLSConnection(TLSRecordLayer):
 
             if cipherSuite in CipherSuite.dhAllSuites:
                 self.dhGroupSize = numBits(serverKeyExchange.dh_p)
+                # Diffie-Hellman parameters are subject to the same size
+                # limits as the other asymmetric keys
+                if self.dhGroupSize < settings.minKeySize:
+                    for result in self._sendError(
+                            AlertDescription.insufficient_security,
+                            "DH prime too small: %d" % self.dhGroupSize):
+                        yield result
+                if self.dhGroupSize > settings.maxKeySize:
+                    for result in self._sendError(
+                            AlertDescription.insufficient_security,
+                            "DH prime too large: %d" % self.dhGroupSize):
+                        yield result
             if cipherSuite in CipherSuite.ecdhAllSuites:
                 self.ecdhCurve = serverKeyExchange.named_curve
 
